@@ -453,7 +453,7 @@ def main(argv=None):
         os.execve(PY, [PY, "-m", "vt.runner"] + (argv or sys.argv[1:]), env)
     import ImageD11
     root = os.environ["VT_ROOT"]
-    if not os.path.abspath(ImageD11.__file__).startswith(os.path.join(root, "tree")):
+    if not os.path.abspath(ImageD11.__file__).startswith(os.environ.get("VT_TREE", os.path.join(root, "tree"))):
         print("ENGINE-ERROR: ImageD11 imported from %s, not from the overlay" % ImageD11.__file__)
         return 2
     if a.replay:
